@@ -7,7 +7,7 @@
    prefix of such a trace ([prefix_runs]).  Both [runs] and [safe] are defined by
    structural recursion into Prop, so unfolding them is symbolic execution and
    no dependent inversion (hence no axiom) is ever needed. *)
-From Coq Require Import ZArith NArith Bool List.
+From Coq Require Import ZArith NArith Bool List Permutation.
 From Mysync Require Import Gtid.Interval Gtid.GtidSet.
 Import ListNotations.
 Open Scope Z_scope.
@@ -47,7 +47,7 @@ Inductive dpath :=
 | PRecoveryDir | PRecovery (h : host) | PHealth (h : host)
 | PHaNodes | PHaNode (h : host) | PCascadeNodes | PCascadeNode (h : host)
 | PLowSpace | PLastShutdown | PResetupStatus (h : host)
-| POptNodes | POptNode (h : host) | POther (code : Z).
+| POptNodes | POptNode (h : host) | PTiming (n : N) | POther (code : Z).
 
 Inductive sw_type := SwSwitchover | SwFailover.
 Inductive sw_cause := CauseManual | CauseWorker | CauseAuto.
@@ -73,6 +73,25 @@ Inductive call :=
 | Peek (c : call)                    (* scheduling-dependent choice: does the environment have a next call like c pending? *)
 | FileExists (f : N) | FileWrite (f : N) | FileRemove (f : N).
 
+Record node_state := {
+  ns_ping_ok : bool; ns_ping_dubious : bool;
+  ns_is_master : bool; ns_ro : bool; ns_super_ro : bool; ns_offline : bool;
+  ns_is_cascade : bool; ns_fs_ro : bool;
+  ns_has_error : bool;
+  ns_disk : option (Z * Z);                       (* used, total *)
+  ns_daemon : option (Z * Z * bool);              (* start, recovery, crash_recovery *)
+  ns_master_gtid : option gtidset;
+  ns_slave : option repl_status;
+  ns_semi : option (bool * bool * Z);
+  ns_repl_settings : option (Z * Z);
+  ns_check_at : Z }.
+
+Definition empty_ns : node_state :=
+  {| ns_ping_ok := false; ns_ping_dubious := false; ns_is_master := false; ns_ro := false; ns_super_ro := false;
+     ns_offline := false; ns_is_cascade := false; ns_fs_ro := false; ns_has_error := false; ns_disk := None;
+     ns_daemon := None; ns_master_gtid := None; ns_slave := None; ns_semi := None; ns_repl_settings := None; ns_check_at := 0 |}.
+
+
 Inductive resp :=
 | RErr (e : err)
 | ROk
@@ -86,7 +105,9 @@ Inductive resp :=
 | RIds (l : list Z)
 | RBinlogs (l : list (N * Z))
 | RVal (v : dval)
-| RHosts (l : list host).
+| RHosts (l : list host)
+| RNodeState (ns : node_state)     (* results of parallel branches *)
+| RPos (p : position).
 
 Definition site := Z.
 
@@ -162,10 +183,11 @@ Fixpoint runs {A} (p : prog A) : trace -> outcome A -> Prop :=
       | e :: tr' => ev_site e = s /\ ev_call e = c /\ runs (k (ev_resp e)) tr' o
       end
   | Par s bs k => fun tr o =>
-      (* every branch runs to an outcome; a panicking branch kills the process *)
+      (* every branch runs to an outcome; a panicking branch kills the process;
+         the join hands the results over in ANY order (goroutine completion order) *)
       (fix branches (bs : list (host * prog resp)) (acc_tr : list trace) (acc_rs : list (host * resp)) : Prop :=
          match bs with
-         | [] => exists tpar tk, interleave (rev acc_tr) tpar /\ tr = tpar ++ tk /\ runs (k (rev acc_rs)) tk o
+         | [] => exists tpar tk rs, interleave (rev acc_tr) tpar /\ tr = tpar ++ tk /\ Permutation (rev acc_rs) rs /\ runs (k rs) tk o
          | (h, b) :: bs' =>
              exists tb ob, runs b tb ob /\
                match ob with
